@@ -13,6 +13,7 @@ import (
 	"github.com/sasha-s/go-deadlock"
 	"github.com/sirupsen/logrus"
 
+	"github.com/valinurovam/garagemq/auth"
 	"github.com/valinurovam/garagemq/config"
 	"github.com/valinurovam/garagemq/metrics"
 	"github.com/valinurovam/garagemq/server"
@@ -22,8 +23,12 @@ import (
 type sessionCfg struct {
 	Rabbit bool   `json:"rabbit"`
 	Engine string `json:"engine"` // buntdb (in memory) | badger
+	Auth   string `json:"auth,omitempty"` // password check mode: md5 (default) | bcrypt | plain
 	Dir    string `json:"-"`
 }
+
+// the configured users of every session (user -> clear password)
+var sessionUsers = [][2]string{{"guest", "guest"}, {"alice", "wonder"}}
 
 type stepResult struct {
 	Op     string   `json:"op"`
@@ -54,14 +59,26 @@ func newSession(cfg sessionCfg, settle time.Duration) (*session, error) {
 	if cfg.Rabbit {
 		proto = "amqp-rabbit"
 	}
+	mode := cfg.Auth
+	if mode == "" {
+		mode = "md5"
+	}
+	var users []config.User
+	for _, u := range sessionUsers {
+		hash, err := auth.HashPassword(u[1], mode)
+		if err != nil {
+			return nil, err
+		}
+		users = append(users, config.User{Username: u[0], Password: hash})
+	}
 	sc := &config.Config{
 		Proto:      proto,
-		Users:      []config.User{{Username: "guest", Password: "084e0343a0486ff05530df6c705c8bb4"}},
+		Users:      users,
 		TCP:        config.TCPConfig{Nodelay: true},
 		Queue:      config.Queue{ShardSize: 4, MaxMessagesInRAM: 1 << 20},
 		Db:         config.Db{DefaultPath: config.DbPathMemory, Engine: config.DbEngineTypeBuntDb},
 		Vhost:      config.Vhost{DefaultPath: "/"},
-		Security:   config.Security{PasswordCheck: "md5"},
+		Security:   config.Security{PasswordCheck: mode},
 		Connection: config.Connection{ChannelsMax: 4096, FrameMaxSize: 65536},
 	}
 	if cfg.Engine == "badger" {
@@ -183,6 +200,22 @@ func (s *session) quiesce() string {
 	}
 }
 
+// stageOf renders connection.status as the model's handshake stage (Broker/Model.v: cstage); the transient
+// values (start-ok / open being handled) are never seen at quiescence and are rendered as numbers
+func stageOf(st int) string {
+	switch st {
+	case server.ConnStart:
+		return "s"
+	case server.ConnTune:
+		return "t"
+	case server.ConnTuneOK:
+		return "k"
+	case server.ConnOpenOK:
+		return "o"
+	}
+	return strconv.Itoa(st)
+}
+
 func qos4(q [4]uint64) string { return fmt.Sprintf("%d/%d/%d/%d", q[0], q[1], q[2], q[3]) }
 
 func uidOf(mid string) string {
@@ -200,7 +233,7 @@ func (s *session) render() []string {
 	}
 	var out []string
 	for _, cs := range snap.Connections {
-		out = append(out, fmt.Sprintf("conn %d qos=%s", cs.ID, qos4(cs.Qos)))
+		out = append(out, fmt.Sprintf("conn %d st=%s qos=%s", cs.ID, stageOf(cs.Status), qos4(cs.Qos)))
 		for _, ch := range cs.Channels {
 			if ch.Status > 3 {
 				continue
@@ -311,6 +344,24 @@ func (s *session) exec(op string) string {
 	if f[0] == "OPEN" {
 		return s.open(atoi(f[1]))
 	}
+	if f[0] == "ACCEPT" { // socket + protocol header only: the handshake is driven by STARTOK / TUNEOK / COPEN
+		s.nconn++
+		id := atoi(f[1])
+		c, err := dial(s.addr, id)
+		if err != nil {
+			return "dial: " + err.Error()
+		}
+		s.clients[id] = c
+		if _, err := c.nc.Write([]byte{'A', 'M', 'Q', 'P', 0, 0, 9, 1}); err != nil {
+			return "header: " + err.Error()
+		}
+		c.startReader()
+		dl := time.Now().Add(3 * time.Second)
+		for c.received() < 1 && !c.isEOF() && time.Now().Before(dl) {
+			time.Sleep(100 * time.Microsecond)
+		}
+		return ""
+	}
 	if !need(2) {
 		return "bad op"
 	}
@@ -338,6 +389,29 @@ func (s *session) exec(op string) string {
 	case "CLOSEOK": // connection.close-ok (answer to a server-initiated close)
 		err = c.sendMethod(0, method(10, 51))
 		s.gone[c.id] = true
+	case "STARTOK": // STARTOK c <good> mech user pass [raw]   (<good> is for the model; raw: response without NULs)
+		w := method(10, 11)
+		w.table(nil)
+		w.shortstr(deq(f[3]))
+		if len(f) > 6 && f[6] == "1" {
+			w.longstr([]byte(deq(f[4]) + deq(f[5])))
+		} else {
+			w.longstr([]byte("\x00" + deq(f[4]) + "\x00" + deq(f[5])))
+		}
+		w.shortstr("en_US")
+		err = c.sendMethod(0, w)
+	case "TUNEOK": // TUNEOK c <within> channel-max frame-max
+		w := method(10, 31)
+		w.short(uint16(atoi(f[3])))
+		w.long(uint32(atoi(f[4])))
+		w.short(0)
+		err = c.sendMethod(0, w)
+	case "COPEN": // COPEN c <ok> vhost
+		w := method(10, 40)
+		w.shortstr(deq(f[3]))
+		w.shortstr("")
+		w.bit(false)
+		err = c.sendMethod(0, w)
 	case "CH":
 		w := method(20, 10)
 		w.shortstr("")
